@@ -123,6 +123,8 @@ def run_spec(draw, kinds=("flat", "flat", "nested", "nested", "fi")):
     bo = draw(gen.bidoffer(n, tickers, pr))
     if bo is not None:
         spec["bidoffer"] = bo
+    # the progress bar is a display option: the run covers every date with it as without it
+    spec["progress_bar"] = draw(st.sampled_from([False, False, True]))
     return spec
 
 
@@ -140,7 +142,11 @@ def case_run(ctx, spec):
         b = interp.mk_backtest(bt, {k: v for k, v in spec.items() if k not in ("kind", "carry", "two_step", "ruinous_fee", "hedge_secs", "exact_zero")})
         holder["root"] = b.strategy
         try:
-            b.run()
+            import contextlib
+            import io
+
+            with contextlib.redirect_stdout(io.StringIO()), contextlib.redirect_stderr(io.StringIO()):
+                b.run()
         except ZeroDivisionError as e:
             # value exactly zero on one date (a total wipe-out is not 'below zero') and a loss on the next: bt refuses the return on a
             # zero base (C10) before the bankruptcy logic can act - the same measure-zero borderline that is discarded below
@@ -159,6 +165,8 @@ def case_run(ctx, spec):
     strats = [m for m in s.members if isinstance(m, bt.core.StrategyBase)]
     V = np.asarray(s.values, dtype=float)
     n = len(V)
+    if n != len(spec["dates"]) + 1 or s.now != interp.mk_dates(spec["dates"])[-1]:
+        raise Violation("the run ended on %s with %d recorded rows; the data has %d dates up to %s (bankrupt=%s, progress_bar=%s)" % (s.now, n, len(spec["dates"]), spec["dates"][-1], s.bankrupt, spec.get("progress_bar")), signature="c16:run-cut-short")
     cash_tot = sum(np.asarray(m.cash, dtype=float) for m in strats)
     pos = {m.full_name: np.asarray(m.positions, dtype=float) for m in secs}
     prc = {m.full_name: np.asarray(m.prices, dtype=float) for m in secs}
